@@ -70,12 +70,13 @@ var secretSettings = []struct {
 	name    string
 	special bool
 }{
-	{defs.ServerTokenKeySetting, true},     // ego.server.token.key
-	{defs.LogonTokenSetting, false},        // ego.logon.token
-	{defs.LogonRefreshTokenSetting, true},  // ego.logon.refresh.token
-	{defs.OAuthClientSecretSetting, false}, // ego.server.oauth.client.secret
-	{defs.LogonUserdataKeySetting, false},  // ego.server.userdata.key
-	{defs.DefaultCredentialSetting, false}, // ego.server.default.credential ("user:password")
+	{defs.ServerTokenKeySetting, true},      // ego.server.token.key
+	{defs.LogonTokenSetting, false},         // ego.logon.token
+	{defs.LogonRefreshTokenSetting, true},   // ego.logon.refresh.token
+	{defs.OAuthClientSecretSetting, false},  // ego.server.oauth.client.secret
+	{defs.LogonUserdataKeySetting, false},   // ego.server.userdata.key
+	{defs.DefaultCredentialSetting, false},  // ego.server.default.credential ("user:password")
+	{defs.ServerKeyPrefix + "token", false}, // ego.server.token: no constant of its own, but on the server's list of secret settings
 }
 
 func settingCanary(name string) string {
